@@ -157,6 +157,15 @@ func parensSearch(ctx *Ctx, r *Rng) {
 			paste2 = back(paste2)
 		}
 		pasteSame := paste2 == c.run.Paste || (!strings.HasPrefix(paste2, "ok") && !strings.HasPrefix(c.run.Paste, "ok"))
+		// With MACRO definitions in the sequence the forest after expansion is the re-resolution of the text with
+		// the definitions deleted (C07): a directive that follows a definition may nest into the directive before
+		// it, which the position of the ")" computed from the scan-phase forest cannot know. The expanded forests are
+		// compared for macro-free sequences only; the scan-phase forests always.
+		for _, t := range c.toks {
+			if !t.Close && directive.Enumeration(t.Kind) == directive.Macro {
+				pasteSame = true
+			}
+		}
 		if run2.Panic != "" || scan2 != c.run.Scan || !pasteSame {
 			bad++
 			content, _ := renderCToks(marked)
